@@ -42,7 +42,8 @@ DotN == N(".", <<46>>)
 NOf(t) == N(t.s, t.u)                       \* of a "str" tree
 NTree(n) == JStr(n.s, n.u)
 NCat(a, b) == N(a.s \o b.s, a.u \o b.u)
-NSub(n, i, j) == N(SubSeq(n.s, i, j), SubSeq(n.u, i, j))
+(* names are ASCII; if the atom is absent or not ASCII only the bytes are kept *)
+NSub(n, i, j) == N(IF Len(n.s) = Len(n.u) THEN SubSeq(n.s, i, j) ELSE "", SubSeq(n.u, i, j))
 NLen(n) == Len(n.u)
 Dots(n) == {i \in 1..NLen(n) : n.u[i] = 46}
 HasDot(n) == Dots(n) # {}
@@ -345,4 +346,305 @@ EditsAt(t, s) ==
   ELSE {}
 
 EditResults(t) == UNION {EditsAt(t, s) : s \in AllSites(t)}
+
+(***************************************************************************)
+(*                                                                         *)
+(*                  Meaning: the reference schema reader                   *)
+(*                                                                         *)
+(* Meaning(tree) is a structural term ("M-term") that keeps everything the *)
+(* specification gives a schema: full names (namespace rules above),       *)
+(* structure, logical types in force, field defaults (as JSON trees),      *)
+(* docs, aliases (type aliases fully qualified relative to the type's      *)
+(* namespace; field aliases verbatim) and custom attributes (every key     *)
+(* that is not structurally consumed at that node kind).                   *)
+(*                                                                         *)
+(*   [m |-> "prim", k]                          k \in PrimNames            *)
+(*   [m |-> "logical", k, base]                 date, time-*, timestamp-*, *)
+(*                                              big-decimal, uuid (string) *)
+(*   [m |-> "decimal", precision, scale, inner] inner = prim bytes | fixed *)
+(*   [m |-> "uuid-fixed", inner], [m |-> "duration", inner]                *)
+(*   [m |-> "array", items, attrs], [m |-> "map", values, attrs]           *)
+(*   [m |-> "union", branches], [m |-> "ref", name]                        *)
+(*   [m |-> "record", name, aliases, doc, fields, attrs]                   *)
+(*        field = [name, doc, aliases, dflt, type, attrs]                  *)
+(*   [m |-> "enum", name, aliases, doc, symbols, edefault, attrs]          *)
+(*   [m |-> "fixed", name, aliases, doc, size, attrs]                      *)
+(*                                                                         *)
+(* names, docs, symbols are UTF-8 byte strings; optional parts are         *)
+(* sequences of length 0 or 1; attrs is a sequence of <<key, tree>>        *)
+(* compared as a finite map (MEq); defaults and attribute values are       *)
+(* compared as JSON values (JEq: object member order is irrelevant).       *)
+(*                                                                         *)
+(* Grey zones fixed here (see DESIGN B.3): attributes written on the       *)
+(* object form of a primitive have no place in the term (the crate's data  *)
+(* model has none; they are not compared); a "logicalType" key is always   *)
+(* structurally consumed, in force or not; the `order` of a field is an    *)
+(* attribute like any other.                                               *)
+(***************************************************************************)
+MPrim(k) == [m |-> "prim", k |-> k]
+MRef(name) == [m |-> "ref", name |-> name]
+
+Opt(o, k) == IF HasStr(o, k) THEN <<Get(o, k).u>> ELSE <<>>
+
+StrItems(o, k) ==
+  IF HasKey(o, k) /\ Get(o, k).j = "arr"
+  THEN SelectSeq(Get(o, k).items, LAMBDA x : x.j = "str") ELSE <<>>
+
+(* "Aliases ... may be specified either as fully namespace-qualified, or relative to the
+   namespace of the name it is an alias for" *)
+TypeAliases(o, full) ==
+  LET xs == StrItems(o, "aliases") IN
+  [i \in 1..Len(xs) |-> RefFull(xs[i], NsPart(full)).u]
+FieldAliases(f) == LET xs == StrItems(f, "aliases") IN [i \in 1..Len(xs) |-> xs[i].u]
+
+AttrsOf(o, consumed) == SelectSeq(o.kv, LAMBDA e : e[1] \notin consumed)
+
+RecordKeys == {"type", "name", "namespace", "doc", "aliases", "fields", "logicalType"}
+EnumKeys == {"type", "name", "namespace", "doc", "aliases", "symbols", "default", "logicalType"}
+FixedKeys == {"type", "name", "namespace", "doc", "aliases", "size", "logicalType"}
+ArrayKeys == {"type", "items", "logicalType"}
+MapKeys == {"type", "values", "logicalType"}
+FieldKeys == {"name", "type", "doc", "default", "aliases"}
+
+RECURSIVE Mean(_, _)
+
+MeanField(f, ns) ==
+  [name |-> Get(f, "name").u, doc |-> Opt(f, "doc"), aliases |-> FieldAliases(f),
+   dflt |-> IF HasKey(f, "default") THEN <<Get(f, "default")>> ELSE <<>>,
+   type |-> Mean(Get(f, "type"), ns), attrs |-> AttrsOf(f, FieldKeys)]
+
+MeanFixed(o, ens, consumed) ==
+  LET full == DefFull(o, ens) IN
+  [m |-> "fixed", name |-> full.u, aliases |-> TypeAliases(o, full), doc |-> Opt(o, "doc"),
+   size |-> Get(o, "size"), attrs |-> AttrsOf(o, consumed)]
+
+MeanObj(o, ens) ==
+  LET ty == Get(o, "type") IN
+  IF ty.j # "str" THEN Mean(ty, ens)
+  ELSE
+  CASE ty.s = "record" ->
+         LET full == DefFull(o, ens)
+             ns == NsPart(full)
+             fs == Get(o, "fields").items
+         IN [m |-> "record", name |-> full.u, aliases |-> TypeAliases(o, full), doc |-> Opt(o, "doc"),
+             fields |-> [i \in 1..Len(fs) |-> MeanField(fs[i], ns)], attrs |-> AttrsOf(o, RecordKeys)]
+    [] ty.s = "enum" ->
+         LET full == DefFull(o, ens)
+             syms == Get(o, "symbols").items
+         IN [m |-> "enum", name |-> full.u, aliases |-> TypeAliases(o, full), doc |-> Opt(o, "doc"),
+             symbols |-> [i \in 1..Len(syms) |-> syms[i].u], edefault |-> Opt(o, "default"),
+             attrs |-> AttrsOf(o, EnumKeys)]
+    [] ty.s = "fixed" ->
+         LET lt == LogicalOf(o, "fixed") IN
+         CASE lt = "decimal" -> [m |-> "decimal", precision |-> Get(o, "precision").n, scale |-> DecimalScale(o).n,
+                                 inner |-> MeanFixed(o, ens, FixedKeys \cup {"precision", "scale"})]
+           [] lt = "uuid" -> [m |-> "uuid-fixed", inner |-> MeanFixed(o, ens, FixedKeys)]
+           [] lt = "duration" -> [m |-> "duration", inner |-> MeanFixed(o, ens, FixedKeys)]
+           [] OTHER -> MeanFixed(o, ens, FixedKeys)
+    [] ty.s = "array" -> [m |-> "array", items |-> Mean(Get(o, "items"), ens), attrs |-> AttrsOf(o, ArrayKeys)]
+    [] ty.s = "map" -> [m |-> "map", values |-> Mean(Get(o, "values"), ens), attrs |-> AttrsOf(o, MapKeys)]
+    [] ty.s \in PrimNames ->
+         LET lt == LogicalOf(o, ty.s) IN
+         CASE lt = "" -> MPrim(ty.s)
+           [] lt = "decimal" -> [m |-> "decimal", precision |-> Get(o, "precision").n, scale |-> DecimalScale(o).n,
+                                 inner |-> MPrim("bytes")]
+           [] OTHER -> [m |-> "logical", k |-> lt, base |-> ty.s]
+    [] OTHER -> MRef(RefFull(ty, ens).u)
+
+Mean(t, ens) ==
+  CASE t.j = "str" -> IF t.s \in PrimNames THEN MPrim(t.s) ELSE MRef(RefFull(t, ens).u)
+    [] t.j = "arr" -> [m |-> "union", branches |-> [i \in 1..Len(t.items) |-> Mean(t.items[i], ens)]]
+    [] t.j = "obj" -> MeanObj(t, ens)
+    [] OTHER -> [m |-> "invalid"]
+
+Meaning(t) == Mean(t, NoNs)
+
+(***************************************************************************)
+(* Equality of M-terms: attributes as finite maps, JSON values by JEq.     *)
+(***************************************************************************)
+AttrKeys(a) == {a[i][1] : i \in 1..Len(a)}
+AttrAt(a, k) == a[CHOOSE i \in 1..Len(a) : a[i][1] = k /\ \A n \in (i+1)..Len(a) : a[n][1] # k][2]
+AttrsEq(a, b) == /\ AttrKeys(a) = AttrKeys(b) /\ Len(a) = Len(b)
+                 /\ \A k \in AttrKeys(a) : JEq(AttrAt(a, k), AttrAt(b, k))
+OptTreeEq(a, b) == Len(a) = Len(b) /\ (Len(a) = 0 \/ JEq(a[1], b[1]))
+
+RECURSIVE MEq(_, _)
+FieldEq(f, g) ==
+  /\ f.name = g.name /\ f.doc = g.doc /\ f.aliases = g.aliases /\ OptTreeEq(f.dflt, g.dflt)
+  /\ MEq(f.type, g.type) /\ AttrsEq(f.attrs, g.attrs)
+
+MEq(a, b) ==
+  IF a.m # b.m THEN FALSE
+  ELSE CASE a.m = "prim" -> a.k = b.k
+         [] a.m = "logical" -> a.k = b.k /\ a.base = b.base
+         [] a.m = "decimal" -> a.precision = b.precision /\ a.scale = b.scale /\ MEq(a.inner, b.inner)
+         [] a.m \in {"uuid-fixed", "duration"} -> MEq(a.inner, b.inner)
+         [] a.m = "array" -> MEq(a.items, b.items) /\ AttrsEq(a.attrs, b.attrs)
+         [] a.m = "map" -> MEq(a.values, b.values) /\ AttrsEq(a.attrs, b.attrs)
+         [] a.m = "union" -> Len(a.branches) = Len(b.branches) /\ \A i \in 1..Len(a.branches) : MEq(a.branches[i], b.branches[i])
+         [] a.m = "ref" -> a.name = b.name
+         [] a.m = "record" -> /\ a.name = b.name /\ a.aliases = b.aliases /\ a.doc = b.doc /\ AttrsEq(a.attrs, b.attrs)
+                              /\ Len(a.fields) = Len(b.fields) /\ \A i \in 1..Len(a.fields) : FieldEq(a.fields[i], b.fields[i])
+         [] a.m = "enum" -> /\ a.name = b.name /\ a.aliases = b.aliases /\ a.doc = b.doc /\ a.symbols = b.symbols
+                            /\ a.edefault = b.edefault /\ AttrsEq(a.attrs, b.attrs)
+         [] a.m = "fixed" -> /\ a.name = b.name /\ a.aliases = b.aliases /\ a.doc = b.doc /\ a.size = b.size
+                             /\ AttrsEq(a.attrs, b.attrs)
+         [] OTHER -> FALSE
+
+(* does a tree carry attributes (or an ignored logicalType) on the object form of a primitive,
+   or an ignored logical type on a complex node?  Those have no place in the M-term (grey). *)
+RECURSIVE HasGreyAttrs(_)
+HasGreyAttrs(t) ==
+  CASE t.j = "arr" -> \E i \in 1..Len(t.items) : HasGreyAttrs(t.items[i])
+    [] t.j = "obj" ->
+         LET k == ObjKind0(t) IN
+         CASE k = "primobj" -> \E i \in 1..Len(t.kv) : t.kv[i][1] \notin {"type", "logicalType", "precision", "scale"}
+           [] k = "record" -> \/ HasKey(t, "logicalType")
+                              \/ LET fs == Get(t, "fields").items IN \E i \in 1..Len(fs) : HasGreyAttrs(Get(fs[i], "type"))
+           [] k = "array" -> HasKey(t, "logicalType") \/ HasGreyAttrs(Get(t, "items"))
+           [] k = "map" -> HasKey(t, "logicalType") \/ HasGreyAttrs(Get(t, "values"))
+           [] k = "enum" -> HasKey(t, "logicalType")
+           [] k = "fixed" -> HasKey(t, "logicalType") /\ LogicalOf(t, "fixed") = ""
+           [] k = "nested" -> TRUE
+           [] OTHER -> FALSE
+    [] OTHER -> FALSE
+
+(***************************************************************************)
+(* Render: a reference writer  M-term -> tree.  Every definition is        *)
+(* written with its short name and an explicit "namespace" ("" = null), so *)
+(* nothing depends on inheritance; references are full names, a null-      *)
+(* namespace name referenced from inside a namespace gets a leading dot.   *)
+(* Model invariants: Meaning(Render(x)) = x up to MEq, NoDupKeys(Render(x)).*)
+(***************************************************************************)
+(* TLC cannot build a STRING from bytes; the rendered tree therefore carries names with the atom
+   left empty and the bytes filled in.  Meaning and PCF read names through .u only, except for the
+   primitive-name test and the dot search, which use .u as well (Dots) / .s (PrimNames).  A name is
+   never a primitive name when it is a defined full name, so s = "" is safe for definitions and
+   references to named types. *)
+RName(u) == JStr("", u)
+
+SplitU(u) ==
+  LET n == N("", u) IN [ns |-> NsPart(n).u, short |-> ShortPart(n).u]
+
+RefSpelling(u, ens) ==
+  LET sp == SplitU(u) IN
+  IF sp.ns = <<>> /\ ens # <<>> THEN <<46>> \o u ELSE u
+
+StrArr(us) == JArr([i \in 1..Len(us) |-> RName(us[i])])
+OptKV(k, o) == IF o = <<>> THEN <<>> ELSE << <<k, RName(o[1])>> >>
+
+RECURSIVE Render(_, _)
+RenderNamed(x, ens, kind) ==
+  LET sp == SplitU(x.name) IN
+  << <<"type", TypeStr(kind)>>, <<"name", RName(sp.short)>>, <<"namespace", RName(sp.ns)>> >>
+  \o OptKV("doc", x.doc)
+  \o (IF x.aliases = <<>> THEN <<>> ELSE << <<"aliases", StrArr([i \in 1..Len(x.aliases) |-> RefSpelling(x.aliases[i], sp.ns)])>> >>)
+
+RenderField(f, ns) ==
+  JObj(<< <<"name", RName(f.name)>>, <<"type", Render(f.type, ns)>> >>
+       \o (IF f.dflt = <<>> THEN <<>> ELSE << <<"default", f.dflt[1]>> >>)
+       \o OptKV("doc", f.doc)
+       \o (IF f.aliases = <<>> THEN <<>> ELSE << <<"aliases", StrArr(f.aliases)>> >>)
+       \o f.attrs)
+
+RenderFixedKV(x, ens) == RenderNamed(x, ens, "fixed") \o << <<"size", x.size>> >>
+
+LogicalU(k) ==
+  CASE k = "date" -> <<100, 97, 116, 101>>
+    [] k = "time-millis" -> <<116, 105, 109, 101, 45, 109, 105, 108, 108, 105, 115>>
+    [] k = "time-micros" -> <<116, 105, 109, 101, 45, 109, 105, 99, 114, 111, 115>>
+    [] k = "timestamp-millis" -> <<116, 105, 109, 101, 115, 116, 97, 109, 112, 45, 109, 105, 108, 108, 105, 115>>
+    [] k = "timestamp-micros" -> <<116, 105, 109, 101, 115, 116, 97, 109, 112, 45, 109, 105, 99, 114, 111, 115>>
+    [] k = "timestamp-nanos" -> <<116, 105, 109, 101, 115, 116, 97, 109, 112, 45, 110, 97, 110, 111, 115>>
+    [] k = "local-timestamp-millis" -> <<108, 111, 99, 97, 108, 45, 116, 105, 109, 101, 115, 116, 97, 109, 112, 45, 109, 105, 108, 108, 105, 115>>
+    [] k = "local-timestamp-micros" -> <<108, 111, 99, 97, 108, 45, 116, 105, 109, 101, 115, 116, 97, 109, 112, 45, 109, 105, 99, 114, 111, 115>>
+    [] k = "local-timestamp-nanos" -> <<108, 111, 99, 97, 108, 45, 116, 105, 109, 101, 115, 116, 97, 109, 112, 45, 110, 97, 110, 111, 115>>
+    [] k = "big-decimal" -> <<98, 105, 103, 45, 100, 101, 99, 105, 109, 97, 108>>
+    [] k = "uuid" -> <<117, 117, 105, 100>>
+    [] k = "decimal" -> <<100, 101, 99, 105, 109, 97, 108>>
+    [] k = "duration" -> <<100, 117, 114, 97, 116, 105, 111, 110>>
+
+LT(k) == <<"logicalType", JStr(k, LogicalU(k))>>
+
+Render(x, ens) ==
+  CASE x.m = "prim" -> TypeStr(x.k)
+    [] x.m = "logical" -> JObj(<< <<"type", TypeStr(x.base)>>, LT(x.k) >>)
+    [] x.m = "decimal" ->
+         IF x.inner.m = "prim"
+         THEN JObj(<< <<"type", TypeStr("bytes")>>, LT("decimal"), <<"precision", JInt(x.precision)>>, <<"scale", JInt(x.scale)>> >>)
+         ELSE JObj(RenderFixedKV(x.inner, ens) \o << LT("decimal"), <<"precision", JInt(x.precision)>>, <<"scale", JInt(x.scale)>> >> \o x.inner.attrs)
+    [] x.m = "uuid-fixed" -> JObj(RenderFixedKV(x.inner, ens) \o << LT("uuid") >> \o x.inner.attrs)
+    [] x.m = "duration" -> JObj(RenderFixedKV(x.inner, ens) \o << LT("duration") >> \o x.inner.attrs)
+    [] x.m = "fixed" -> JObj(RenderFixedKV(x, ens) \o x.attrs)
+    [] x.m = "enum" -> JObj(RenderNamed(x, ens, "enum") \o << <<"symbols", StrArr(x.symbols)>> >> \o OptKV("default", x.edefault) \o x.attrs)
+    [] x.m = "record" ->
+         LET ns == SplitU(x.name).ns IN
+         JObj(RenderNamed(x, ens, "record")
+              \o << <<"fields", JArr([i \in 1..Len(x.fields) |-> RenderField(x.fields[i], ns)])>> >> \o x.attrs)
+    [] x.m = "array" -> JObj(<< <<"type", TypeStr("array")>>, <<"items", Render(x.items, ens)>> >> \o x.attrs)
+    [] x.m = "map" -> JObj(<< <<"type", TypeStr("map")>>, <<"values", Render(x.values, ens)>> >> \o x.attrs)
+    [] x.m = "union" -> JArr([i \in 1..Len(x.branches) |-> Render(x.branches[i], ens)])
+    [] x.m = "ref" -> RName(RefSpelling(x.name, ens))
+
+RenderSchema(x) == Render(x, <<>>)
+
+(***************************************************************************)
+(* Named deviations of the crate's writer (known findings of C10).         *)
+(*                                                                         *)
+(* LoseNullNs: "C10-null-namespace-lost" -- the writer emits no namespace  *)
+(* key for a name without namespace and writes references as bare full     *)
+(* names, so a null-namespace name inside a namespaced definition is read  *)
+(* back in the enclosing namespace.  This operator is the exact effect on  *)
+(* the M-term (definitions, references and aliases).                       *)
+(*                                                                         *)
+(* DropDecimalAttrs: "C10-decimal-fixed-duplicate-keys" -- a decimal on a  *)
+(* fixed keeps precision/scale ALSO as attributes of the fixed, and writes *)
+(* both; the operator removes them from the fixed inside a decimal.        *)
+(***************************************************************************)
+Requal(u, ens) == IF SplitU(u).ns = <<>> /\ ens # <<>> THEN ens \o <<46>> \o u ELSE u
+
+RECURSIVE LoseNullNs(_, _)
+LoseNamed(x, ens) ==
+  LET nm == Requal(x.name, ens)
+      ns == SplitU(nm).ns
+  IN [x EXCEPT !.name = nm, !.aliases = [i \in 1..Len(x.aliases) |-> Requal(x.aliases[i], ns)]]
+
+LoseNullNs(x, ens) ==
+  CASE x.m \in {"prim", "logical"} -> x
+    [] x.m = "decimal" -> IF x.inner.m = "prim" THEN x ELSE [x EXCEPT !.inner = LoseNamed(x.inner, ens)]
+    [] x.m \in {"uuid-fixed", "duration"} -> [x EXCEPT !.inner = LoseNamed(x.inner, ens)]
+    [] x.m \in {"fixed", "enum"} -> LoseNamed(x, ens)
+    [] x.m = "record" ->
+         LET y == LoseNamed(x, ens)
+             ns == SplitU(y.name).ns
+         IN [y EXCEPT !.fields = [i \in 1..Len(x.fields) |-> [x.fields[i] EXCEPT !.type = LoseNullNs(x.fields[i].type, ns)]]]
+    [] x.m = "array" -> [x EXCEPT !.items = LoseNullNs(x.items, ens)]
+    [] x.m = "map" -> [x EXCEPT !.values = LoseNullNs(x.values, ens)]
+    [] x.m = "union" -> [x EXCEPT !.branches = [i \in 1..Len(x.branches) |-> LoseNullNs(x.branches[i], ens)]]
+    [] x.m = "ref" -> [x EXCEPT !.name = Requal(x.name, ens)]
+    [] OTHER -> x
+
+NotDecAttr(e) == e[1] \notin {"precision", "scale"}
+RECURSIVE DropDecimalAttrs(_)
+DropDecimalAttrs(x) ==
+  CASE x.m = "decimal" -> IF x.inner.m = "prim" THEN x ELSE [x EXCEPT !.inner.attrs = SelectSeq(@, NotDecAttr)]
+    [] x.m = "record" -> [x EXCEPT !.fields = [i \in 1..Len(x.fields) |-> [x.fields[i] EXCEPT !.type = DropDecimalAttrs(x.fields[i].type)]]]
+    [] x.m = "array" -> [x EXCEPT !.items = DropDecimalAttrs(x.items)]
+    [] x.m = "map" -> [x EXCEPT !.values = DropDecimalAttrs(x.values)]
+    [] x.m = "union" -> [x EXCEPT !.branches = [i \in 1..Len(x.branches) |-> DropDecimalAttrs(x.branches[i])]]
+    [] OTHER -> x
+
+(* duplicate keys that the decimal-on-fixed deviation explains: only precision/scale, only at an
+   object whose type is fixed with a decimal in force, and both occurrences carry the same value *)
+RECURSIVE OnlyDecimalDups(_)
+OnlyDecimalDups(t) ==
+  CASE t.j = "arr" -> \A i \in 1..Len(t.items) : OnlyDecimalDups(t.items[i])
+    [] t.j = "obj" ->
+         /\ \A a, b \in 1..Len(t.kv) :
+              (a < b /\ t.kv[a][1] = t.kv[b][1]) =>
+                 /\ t.kv[a][1] \in {"precision", "scale"} /\ JEq(t.kv[a][2], t.kv[b][2])
+                 /\ HasStr(t, "type") /\ Get(t, "type").s = "fixed" /\ LogicalOf(t, "fixed") = "decimal"
+                 /\ Cardinality({c \in 1..Len(t.kv) : t.kv[c][1] = t.kv[a][1]}) = 2
+         /\ \A i \in 1..Len(t.kv) : OnlyDecimalDups(t.kv[i][2])
+    [] OTHER -> TRUE
 =============================================================================
